@@ -18,6 +18,7 @@ CONTENT = {
     "stemorder": ["a.cmake", "a-b.cmake"],
     "cmakeinname": ["a.cmake", "a.cmake-3.cmake"],     # '.cmake' occurs in front of the real extension
     "dotfile": [".defaults.cmake"],
+    "templates": ["a.cmake", "Pkg.cmake.in", "gcc.cmake.orig", "b.cmake_"],    # '.cmake' is not the extension: no CMake files
     "formfeed": ["a.cmake", "ff.cmake"],       # ff.cmake's doccomment holds FF and LS characters
     "indexfile": ["a.cmake", "index.cmake"],    # its page has the path of the directory index (known finding K4)
     "indexfile_renamed": ["a.cmake", "index_.cmake"],      # 'a-b.cmake' < 'a.cmake' but 'a' < 'a-b'
@@ -89,7 +90,7 @@ class Tree:
             for f in self.files(i):
                 # the content depends on the base name only: equally named files in different directories are
                 # byte-identical (vendored copies)
-                s[d + "/" + f] = fsbox.cmake_content(f) if is_cmake(f) or f == "cmake" else "not cmake\n"
+                s[d + "/" + f] = fsbox.cmake_content(f) if ".cmake" in f.lower() or f == "cmake" else "not cmake\n"
         return s
 
     def describe(self):
